@@ -106,6 +106,7 @@ func (o iOp) label() string {
 type slice struct {
 	routes    []fwsim.Route // initial FIB (unless universes)
 	universes bool          // first step chooses a subset of the four routes with costs {1,2}
+	costs     bool          // first step chooses two or three next hops of /a with boundary costs
 	iops      []iOp
 	dops      []dOp
 	tops      []time.Duration
@@ -131,7 +132,19 @@ var theRoutes = []struct {
 // last: emptying and pruning /a must not disturb it (name-tree FIB pruning).
 var siblingRoute = fwsim.Route{Prefix: "/c", Face: fwsim.N4, Cost: 1}
 
+// boundaryCosts: route costs are 64-bit unsigned; "last resort" routes use very large values.
+var boundaryCosts = []uint64{0, 1, 1 << 31, 1 << 32, 1<<63 - 1, 1 << 63, ^uint64(0)}
+var boundaryLabels = []string{"0", "1", "2^31", "2^32", "2^63-1", "2^63", "max"}
+
 var slices = map[string]slice{
+	// cost boundaries: /a has two or three next hops whose costs are drawn from boundaryCosts
+	// (every ordered pair and triple), Interests arrive from a local face and from one of the
+	// next hops; best-route must use the numerically lowest usable cost
+	"cost": {
+		costs: true,
+		iops:  []iOp{{face: fwsim.L1, name: "/a", nonce: "fresh", hl: -1}, {face: fwsim.N2, name: "/a", nonce: "fresh", hl: -1}},
+		tops:  []time.Duration{600 * time.Millisecond},
+	},
 	// FIB universes: every subset of {(/,N2),(/a,N2),(/a,N3),(/a/b,N4)} with costs from {1,2}
 	// (81 universes incl. equal-cost ties), each with and without the sibling route (/c,N4), as
 	// the first step, then Interests from a local and from
@@ -292,7 +305,7 @@ func build(cfgName string) explore.System {
 	if !ok {
 		report.Fatal("unknown slice %q", sl)
 	}
-	s := &sys{cfgName: cfgName, defs: map[string]opDef{}, uni: slc.universes}
+	s := &sys{cfgName: cfgName, defs: map[string]opDef{}, uni: slc.universes || slc.costs}
 	s.cfg = fwsim.Config{Routes: slc.routes, Regions: regions}
 	switch st {
 	case "br":
@@ -339,6 +352,21 @@ func build(cfgName string) explore.System {
 				rs = append(rs, siblingRoute)
 			}
 			add("U("+strings.Join(lab, "")+")", opDef{u: &uOp{routes: rs}})
+		}
+	}
+	if slc.costs {
+		// every ordered pair (N2,N3) and every ordered triple (N2,N3,N4) of boundary costs
+		for i, c2 := range boundaryCosts {
+			for j, c3 := range boundaryCosts {
+				add(fmt.Sprintf("U(N2=%s,N3=%s)", boundaryLabels[i], boundaryLabels[j]), opDef{u: &uOp{routes: []fwsim.Route{{Prefix: "/a", Face: fwsim.N2, Cost: c2}, {Prefix: "/a", Face: fwsim.N3, Cost: c3}}}})
+			}
+		}
+		for i, c2 := range boundaryCosts {
+			for j, c3 := range boundaryCosts {
+				for k, c4 := range boundaryCosts {
+					add(fmt.Sprintf("U(N2=%s,N3=%s,N4=%s)", boundaryLabels[i], boundaryLabels[j], boundaryLabels[k]), opDef{u: &uOp{routes: []fwsim.Route{{Prefix: "/a", Face: fwsim.N2, Cost: c2}, {Prefix: "/a", Face: fwsim.N3, Cost: c3}, {Prefix: "/a", Face: fwsim.N4, Cost: c4}}}})
+				}
+			}
 		}
 	}
 	// simplest first: plain fresh Interests, Data, clock, FIB changes, then the richer Interests
@@ -686,6 +714,9 @@ func configs(th bool) []explore.Config {
 		nd := func(label, b string, depth int) {
 			c = append(c, explore.Config{Name: label + " (no dedup) " + b, BuildName: b, MaxDepth: devDepth(depth), MaxDev: -1, NoDedup: true})
 		}
+		add("cost", "br", "cs0", "tree", 3)
+		add("cost", "br", "cs1", "ht", 3)
+		add("cost", "mc", "cs0", "ht", 2)
 		nd("audit", "nexthop br cs1 tree", 3)
 		nd("history search", "tiny br cs0 tree", 6)
 		nd("history search", "tiny mc cs1 ht", 6)
@@ -693,6 +724,9 @@ func configs(th bool) []explore.Config {
 		add("route", "mc", "cs0", "ht", 4)
 		return c
 	}
+	add("cost", "br", "cs0", "tree", 4)
+	add("cost", "br", "cs1", "ht", 4)
+	add("cost", "mc", "cs0", "tree", 3)
 	c = append(c, explore.Config{Name: "audit (no dedup) nexthop br cs1 tree", BuildName: "nexthop br cs1 tree", MaxDepth: 4, MaxDev: -1, NoDedup: true})
 	for _, b := range []string{"tiny br cs0 tree", "tiny mc cs1 ht", "tiny mc cs0 tree", "tiny br cs1 ht"} {
 		c = append(c, explore.Config{Name: "history search (no dedup) " + b, BuildName: b, MaxDepth: 7, MaxDev: -1, NoDedup: true})
@@ -737,7 +771,7 @@ func main() {
 			}
 			cov["oracle_branches_exercised"] = o
 		},
-		Rule: "BFS over histories of Interest arrivals (names /a,/a/b,/c; nonce fresh|repeated|absent; hop limit absent|0|1|2; forwarding hint none|in-region|in-nested-region|out-of-region|(out,in)|(in,out)|(out,out'), producer regions [/r], [/r/site,/r], [/r,/r/site]; NextHopFaceId none|N2|self|missing on a face with and one without consumer-controlled forwarding; local, non-local and ad-hoc arrival faces), Data arrivals (by name, echoing a live token), clock steps 100/400/600 ms and 5 s, and FIB/strategy changes between packets (AddRoute, RemoveRoute, SetStrategy, UnsetStrategy) on one real fw.Thread with real PIT-CS, dead nonce list, FIB (tree / hash table) and strategies; forwarding hints with two delegations in either order; FIB universes: all 81 subsets of {(/,N2),(/a,N2),(/a,N3),(/a/b,N4)} with costs {1,2}, each with and without a sibling route (/c,N4), as first step of the route slice plus fixed FIBs with ties, a local and an ad-hoc next hop; every Interest SendPacket is compared with a three-valued reference (C02.nh/noback/best/first/drop/suppress/token); states de-duplicated on reference + white-box PIT-CS dump + FIB dump",
+		Rule: "BFS over histories of Interest arrivals (names /a,/a/b,/c; nonce fresh|repeated|absent; hop limit absent|0|1|2; forwarding hint none|in-region|in-nested-region|out-of-region|(out,in)|(in,out)|(out,out'), producer regions [/r], [/r/site,/r], [/r,/r/site]; NextHopFaceId none|N2|self|missing on a face with and one without consumer-controlled forwarding; local, non-local and ad-hoc arrival faces), Data arrivals (by name, echoing a live token), clock steps 100/400/600 ms and 5 s, and FIB/strategy changes between packets (AddRoute, RemoveRoute, SetStrategy, UnsetStrategy) on one real fw.Thread with real PIT-CS, dead nonce list, FIB (tree / hash table) and strategies; forwarding hints with two delegations in either order; FIB universes: all 81 subsets of {(/,N2),(/a,N2),(/a,N3),(/a/b,N4)} with costs {1,2}, each with and without a sibling route (/c,N4), as first step of the route slice, every ordered pair and triple of next-hop costs from {0,1,2^31,2^32,2^63-1,2^63,2^64-1} as first step of the cost slice, plus fixed FIBs with ties, a local and an ad-hoc next hop; every Interest SendPacket is compared with a three-valued reference (C02.nh/noback/best/first/drop/suppress/token); states de-duplicated on reference + white-box PIT-CS dump + FIB dump",
 		Assumptions: []string{
 			"faces are simulated at the dispatch.Face seam (verif/harness/fwsim): a received frame becomes a defn.Pkt exactly as NDNLPLinkService.handleIncomingFrame + dispatchInterest/dispatchData build it; NextHopFaceId is honoured only on faces with local fields enabled; one forwarding thread (id 0)",
 			"'usable' is three-valued: a next hop equal to a point-to-point arrival face is unusable (C02.noback); a next hop that is the ad-hoc arrival face, that itself holds an in-record of the same PIT entry, or that is non-local while the decremented hop limit is 0, may or may not be used; every other next hop of the LPM entry must count as usable",
